@@ -2,6 +2,8 @@
 C12 property theorems.
 -/
 import GPy.C12.Proofs
+import GPy.C12.AsmProofs
+import GPy.C12.Placement
 namespace GPy.C12
 
 /-- **verify_sound.**  If the verifier accepts a code object then, for EVERY execution of
@@ -56,6 +58,60 @@ example : okB (verify exAccepted) = true := by decide
 example : okB (verify { exAccepted with code := #[1, 100, 0, 0, 83] }) = false := by decide
 example : okB (verify { exAccepted with stacksize := 7 }) = false := by decide
 
+
+/-! ### the assembler (compile/instructions.go: Pass / Assemble), model in Assemble.lean -/
+
+/-- **assemble_fixpoint_sound.**  For EVERY instruction stream, every label store and every pass
+number `n > 0` (a resolving pass): if `Instructions.Pass(n)` finishes without a panic and reports
+"no change", then in the stream it leaves behind (1) the position of every instruction is the
+running sum (uint32) of the sizes of the instructions before it, (2) every label object holds the
+position the store has for it, and (3) every jump operand is its label's FINAL position: absolute
+jumps hold it, relative jumps hold its distance from the end of the jump instruction – although
+`Resolve` read the position of a label further down the stream before `SetPos` reached it. -/
+theorem assemble_fixpoint_sound (n : Nat) (hn : n > 0) (is : List Item) (lpos : Nat → Nat) (out : PassOut)
+    (h : pass n is lpos = .ok out) (hc : out.changed = false) :
+    Offsets out.items 0 ∧ LabelsAt out.items out.lpos ∧ JumpsResolved out.items out.lpos :=
+  pass_fixpoint n hn is lpos out h hc
+
+/-- **assemble_sound (partial: exit at pass 0 excluded).**  For every fresh stream, if
+`Instructions.Assemble` returns (no panic, fewer than 10 passes) and its loop stopped at a pass
+index `k > 0`, the final stream is laid out and resolved as in `assemble_fixpoint_sound`, every
+jump whose label was added to the stream targets the byte offset of that label, and – when the code
+is shorter than 2^32 bytes – the byte offset of every instruction is the exact sum of the sizes
+(= number of emitted bytes, `output_length`) of the instructions before it: jump targets are
+instruction boundaries of the emitted byte string.
+Excluded: `k = 0` – pass 0 (which does not resolve) already reports no change; this needs every
+instruction to sit at offset 0 (`assemble_pass0_witness`), never the case for compiler output,
+which ends in RETURN_VALUE after at least one other instruction. -/
+theorem assemble_sound_partial (is : List AInstr) (k : Nat) (out : PassOut)
+    (h : assembleLoop 10 0 (fresh is) (fun _ => 0) = .ok (k, out)) (hk : k > 0) :
+    (Offsets out.items 0 ∧ LabelsAt out.items out.lpos ∧ JumpsResolved out.items out.lpos) ∧
+    (∀ o a d p, (AInstr.jabs o a d, p) ∈ out.items → (∃ q, (AInstr.label d, q) ∈ out.items) →
+        (AInstr.label d, a) ∈ out.items) ∧
+    (∀ o a d p, (AInstr.jrel o a d, p) ∈ out.items → (∃ q, (AInstr.label d, q) ∈ out.items) →
+        (AInstr.label d, wrap32 (p + argSize a) + a) ∈ out.items) ∧
+    (sizeSum out.items < 4294967296 → ∀ pre it post, out.items = pre ++ it :: post →
+        it.2 = sizeSum pre ∧ it.2 = (pre.flatMap (fun x => x.1.output)).length) := by
+  have hs := assembleLoop_sound 10 0 (fresh is) (fun _ => 0) k out h hk
+  refine ⟨hs, ?_, ?_, ?_⟩
+  · intro o a d p hm hd
+    exact jabs_target_is_label_offset out.items out.lpos hs.2.1 hs.2.2 o a d p hm hd
+  · intro o a d p hm hd
+    exact jrel_target_is_label_offset out.items out.lpos hs.2.1 hs.2.2 o a d p hm hd
+  · intro hlt pre it post heq
+    have := offsets_no_wrap out.items hs.1 hlt pre it post heq
+    exact ⟨this, by rw [this, sizeSum_eq_output_length]⟩
+
+/-- the excluded case is real: a stream whose only sized instruction is a trailing relative jump
+is "assembled" by pass 0 alone, unresolved – the emitted JUMP_FORWARD 0 targets offset 3, not its
+label at offset 0 (and a resolving pass would have panicked "can't jump backwards"). -/
+theorem assemble_pass0_witness :
+    assemble [.label 1, .jrel .JUMP_FORWARD 0 1] = .ok [110, 0, 0] := by rfl
+
+example : ∃ k out, assembleLoop 10 0 (fresh demo) (fun _ => 0) = .ok (k, out) ∧ k > 0 := by
+  refine ⟨1, ?_⟩
+  simp [assembleLoop, pass, passGo, passItem, fresh, demo, setL, wrap32, AInstr.size, argSize]
+
 /-! ### gpython's own stack-effect table (REGENERATED from compile/instructions.go) -/
 open Generated in
 /-- **effect_table_agrees (partial: one row excluded).**  For every opcode that has a row in
@@ -97,6 +153,60 @@ theorem handler_entry_depth (blk : List Block) (stk : List Kind) (s' : State)
 
 example : opcodeStackEffectRowsNonEmpty = true := by decide
 
+open Generated in
+/-- **effect_table_agrees** (all rows, with the edge adjustments of `stackDepthWalk`).  For every
+opcode with a row in the regenerated `opcodeStackEffect`, every operand below 2^31 and every
+stack / block stack, each non-exceptional result of the abstract machine is covered by one of the
+two edges `stackDepthWalk` follows: it falls through with at most `depth + effect` entries (`− 1` for
+JUMP_IF_*_OR_POP, as the walk adjusts), or it lands on a jump target of the instruction with at most
+`depth + effect` entries (`− 2` for FOR_ITER, `+ 3` for SETUP_EXCEPT / SETUP_FINALLY, as the walk
+adjusts); a suspended frame is resumed no deeper than it was.  The ONE deviation of the table is
+explicit as `withCleanupSlack`: WITH_CLEANUP entered with an exception may leave 2 more than its
+row says (see `with_cleanup_effect_witness`); `with_cleanup_within_setup_with_charge` shows that the
+7 charged to SETUP_WITH covers exactly this. -/
+theorem effect_table_agrees (c : Code) (pc : Nat) (i : Instr) (stk : List Kind) (blk : List Block) (e : Int)
+    (harg : i.arg < 2147483648) (hrow : opcodeStackEffect i.op i.arg = some e) :
+    ∀ r ∈ execI c pc i stk blk,
+      (∀ pc' stk' blk', r = .norm pc' stk' blk' →
+        (pc' = pc + i.size ∧ (stk'.length : Int) ≤ stk.length + walkFall i.op e + withCleanupSlack i.op stk) ∨
+        (pc' ∈ jumpTargets pc i ∧ (stk'.length : Int) ≤ stk.length + walkTarget i.op e)) ∧
+      (∀ pc' stk' blk', r = .yld pc' stk' blk' → stk'.length + 1 ≤ stk.length) := by
+  intro r hr
+  have := execI_edge_le c pc i stk blk e harg hrow r hr
+  constructor
+  · intro pc' stk' blk' hn; subst hn; exact this
+  · intro pc' stk' blk' hn; subst hn; exact this
+
+/-- **unwind_entry_depth** (first step of `stackdepth_upper_bound`).  For every unwinding reason
+(exception, return, break, continue), every block stack and value stack: if unwinding lands in the
+frame again, the new depth is at most 6 above the level of the block that caught it – the 6 (+3 on
+the handler edge) `stackDepthWalk` charges at that block's SETUP_EXCEPT / SETUP_FINALLY, within the 7
+of SETUP_WITH, and 0 would do for SETUP_LOOP's break edge – or it is a `continue` that reached its
+loop block with the stack it had.  It never exceeds the depth before by more than 6. -/
+theorem unwind_entry_depth (w : UW) (blk : List Block) (stk : List Kind) (s' : State)
+    (h : unwind w blk stk = .next s') :
+    s'.stk.length ≤ stk.length + 6 ∧
+    ∃ b ∈ blk, s'.stk.length ≤ b.level + 6 ∨ (b.ty = .loop ∧ w = .cont s'.pc ∧ s'.stk.length ≤ stk.length) :=
+  unwind_depth w blk stk s' h
+
+/-- the row `effect_table_agrees` singles out is paid for by SETUP_WITH: when an exception unwinds
+into a `with` handler and WITH_CLEANUP runs there, the depth stays within `level + 7`, where `level`
+is the depth at the SETUP_WITH (its block level) and 7 its table entry. -/
+theorem with_cleanup_within_setup_with_charge (c : Code) (blk : List Block) (stk : List Kind) (s' : State)
+    (h : unwind .exception blk stk = .next s') :
+    ∃ b ∈ blk, ∀ r ∈ execI c s'.pc ⟨.WITH_CLEANUP, 0, 1⟩ s'.stk s'.blk, ∀ pc' stk' blk', r = .norm pc' stk' blk' →
+      (stk'.length : Int) ≤ b.level + 7 := by
+  obtain ⟨b, hb, _, _, hlen⟩ := handler_entry_depth blk stk s' h
+  refine ⟨b, hb, ?_⟩
+  intro r hr pc' stk' blk' hn
+  have hrow : Generated.opcodeStackEffect (Instr.op ⟨.WITH_CLEANUP, 0, 1⟩) (Instr.arg ⟨.WITH_CLEANUP, 0, 1⟩) = some (-1) := rfl
+  have := (effect_table_agrees c s'.pc ⟨.WITH_CLEANUP, 0, 1⟩ s'.stk s'.blk (-1) (by decide) hrow r hr).1 pc' stk' blk' hn
+  simp only [walkFall, walkTarget, withCleanupSlack, jumpTargets] at this
+  rcases this with ⟨_, h1⟩ | ⟨h2, _⟩
+  · split at h1 <;> simp at h1 <;> omega
+  · simp at h2
+
+
 /-! ### line table (py/code.go: Addr2Line) -/
 
 /-- **addr2line_monotone.**  For every line table, `Addr2Line` is monotone in the address. -/
@@ -114,5 +224,15 @@ theorem addr2line_within_source (c : Code) (cert : Cert) (h : verify c = .ok cer
   rcases hl.2.2 with h0 | h1
   · exact absurd h0 hn
   · omega
+
+/-! ### the placement spec (Placement.lean) at the points the seeded change C12-a lives on (tests, by `decide`) -/
+example : placementError .func [.whileElse] .cont = some "'continue' not properly in loop" := by decide
+example : placementError .func [.whileElse] .brk = some "'break' outside loop" := by decide
+example : placementError .func [.forBody, .whileElse] .cont = none := by decide
+example : placementError .funcLoop [.tfFinal] .cont = some "'continue' not supported inside 'finally' clause" := by decide
+example : placementError .funcLoop [.tfFinal, .whileBody] .cont = none := by decide
+example : placementError .funcLoop [.defBody] .brk = some "'break' outside loop" := by decide
+example : placementError .func [.classBody] .ret = some "'return' outside function" := by decide
+example : placementError .module [.defBody, .withBody] .yld = none := by decide
 
 end GPy.C12
